@@ -244,14 +244,15 @@ def run(chk, tier):
     by_val = {r[1]: r for r in rets}
     a = by_val.get("Always")
     n = by_val.get("Never")
-    ok_a = a is not None and "Ge 132" in a[0] and C.slice_extent([y for y in H.walk(a[2][2]) if H.kind(y) == "index"][0])[1:] == (128, 4) and "DICM" in a[0]
+    ge132 = a is not None and any(H.kind(y) == "bin" and y[2] == "Ge" and H.int_lit(y[4]) == 132 for y in H.walk(a[2][2]))
+    ok_a = a is not None and ge132 and C.slice_extent([y for y in H.walk(a[2][2]) if H.kind(y) == "index"][0])[1:] == (128, 4) and "DICM" in a[0]
     ok_n = n is not None and C.slice_extent([y for y in H.walk(n[2][2]) if H.kind(y) == "index"][0])[1:] == (0, 4) and "DICM" in n[0]
     chk.expect(ok_a, "preamble", "detect_preamble", "DICM@128->Always", "buflen >= 132 && buf[128..132] == DICM", a[0] if a else None, loc=C.fn_loc(hd))
     chk.expect(ok_n, "preamble", "detect_preamble", "DICM@0->Never", "buf[0..4] == DICM", n[0] if n else None, loc=C.fn_loc(hd))
     chk.expect(a is not None and n is not None and a[2][1] < n[2][1], "preamble", "detect_preamble", "order", "the 128-offset test comes first", "ok")
 
     def ops_of(c):
-        return sorted(y[2] for y in H.walk(c) if H.kind(y) == "bin")
+        return sorted(y[2] for y in H.walk(c) if H.kind(y) == "bin" and y[2] in ("And", "Or", "Eq", "Ne", "Lt", "Le", "Gt", "Ge"))
     # the operators themselves: `>=` and `==` joined by `&&` for the 128-offset test, a lone `==` for the 0-offset test
     chk.expect(a is not None and ops_of(a[2][2]) == ["And", "Eq", "Ge"], "preamble", "detect_preamble", "DICM@128->Always/operators", ["And", "Eq", "Ge"], ops_of(a[2][2]) if a else None, loc=C.fn_loc(hd))
     chk.expect(n is not None and ops_of(n[2][2]) == ["Eq"], "preamble", "detect_preamble", "DICM@0->Never/operators", ["Eq"], ops_of(n[2][2]) if n else None, loc=C.fn_loc(hd))
